@@ -212,7 +212,18 @@ class Runner:
         pre = rc.raw()
         self.pre_expected = set(rc.expected)
         self.pre_damaged = set(self.damaged)
-        real_out = self._real(rc, op)
+        tracer = None
+        # several calls = several traces; a stream handed over mid-way takes one of two paths depending on its tail's digest
+        single_calls = op['op'] == 'addPacked' and ((op.get('via') == 'single' and len(op['cs']) > 1) or op.get('via') == 'midstream')
+        if getattr(self, 'check_trace', False) and not single_calls and op['op'] in ('addLoose', 'addPacked', 'packAll', 'delete', 'repackOne', 'clean'):
+            from .iotrace import Tracer  # pylint: disable=import-outside-toplevel
+
+            tracer = Tracer(rc.folder).install()
+        try:
+            real_out = self._real(rc, op)
+        finally:
+            if tracer is not None:
+                tracer.uninstall()
         post = rc.raw()
         if op['op'] == 'damage':
             self.damaged.add((rc.name, op['k']))
@@ -226,6 +237,8 @@ class Runner:
         rec = dict(op)
         if getattr(self, 'check_ir', False) and line is not None:
             self._ir_safety(rc, op, line)
+        if tracer is not None and line is not None and not real_out.startswith('raised'):
+            self._compare_trace(rc, op, line, tracer, pre)
         if line is not None:
             model_out = self._ask(line)
             if model_out == 'inadmissible' and op['op'] in ('packAll', 'repack', 'repackOne'):
@@ -453,7 +466,9 @@ class Runner:
         if kind == 'addLoose':
             return f'addLoose {op["c"]} {b01(rc.cfg.prefix_len > 0)}'
         if kind == 'addPacked':
-            return f'addPacked {b01(op["compress"])} {b01(op["no_holes"])} {b01(op["read_twice"])} {show_nats(op["cs"])}'
+            # a stream handed over mid-way is hashed from there first (a digest nobody knows), so it takes the write-then-rewind path
+            rt = op['read_twice']
+            return f'addPacked {b01(op["compress"])} {b01(op["no_holes"])} {b01(rt)} {show_nats(op["cs"])}'
         if kind == 'packAll':
             return f'packAll {parts[5]} {parts[6]} {parts[7]}'
         if kind == 'delete':
@@ -462,6 +477,30 @@ class Runner:
             _, _, zs = parts[5].split(':')
             return f'repackOne {op["p"]} {zs}'
         return None
+
+    def _compare_trace(self, rc: RealCont, op: dict, line: str, tracer, pre):
+        from . import iotrace  # pylint: disable=import-outside-toplevel
+
+        if op['op'] == 'clean':
+            real_toks, _ = iotrace.canon(tracer.events, lambda k: self._cid_or(rc, k), {r[1] for r in pre.rows})
+            order = [int(t.split(':')[1]) for t in real_toks if t.startswith('looseUnlink:')]
+            args = f'clean {show_nats(order)}'
+        else:
+            args = self.ir_args(rc, op, line)
+        if args is None:
+            return
+        ans = self._ask(f'store acts {rc.name} {args}')
+        acts, _, lens = ans.partition(' | ')
+        lengths = [int(x) for x in lens.split(',')] if lens.strip() not in ('-', '') else []
+        sb_size = self.pool.size(op['c']) if op['op'] == 'addLoose' else None
+        model_toks, _ = iotrace.canon_model(acts.strip(), lengths, sb_size)
+        real_toks, _ = iotrace.canon(tracer.events, lambda k: self._cid_or(rc, k), {r[1] for r in pre.rows})
+        self.res.bump('traces_compared')
+        if model_toks != real_toks:
+            i = 0
+            while i < min(len(model_toks), len(real_toks)) and model_toks[i] == real_toks[i]:
+                i += 1
+            self.res.diffs.append((self.step, 'trace', ' '.join(model_toks[max(0, i - 3):i + 4]), ' '.join(real_toks[max(0, i - 3):i + 4]) + f'  (at action {i}; {args[:60]})', op['op']))
 
     def _ir_safety(self, rc: RealCont, op: dict, line: str):
         args = self.ir_args(rc, op, line)
